@@ -613,7 +613,7 @@ def _values_used_by(n):
 def plant_scope_and_clash(g, vis, planted, gen: gen_ir.IRGen, p_scope=0.6, p_clash=0.85) -> None:
     """inner scopes below g and names that collide across scopes (rename guards of the passes)"""
     rng = gen.rng
-    if rng.random() < (0.15 if nested_graphs_of(g) else p_scope):
+    if vis and rng.random() < (0.15 if nested_graphs_of(g) else p_scope):
         sn = plant_scope(g, vis, gen)
         if rng.random() < 0.3:
             g.outputs.append(sn.outputs[0])
